@@ -56,25 +56,39 @@ def c03(ctx, v):
 
 
 def r_absent(ctx, v):
-    """operations naming an absent item change nothing: in change_priority(_by), remove, get* every write
-    happens inside the continuation of a successful lookup (closure given to Option::map)"""
+    """operations naming an absent item change nothing: in change_priority(_by) and remove every write / re-sift is
+    control-dependent on the Some edge of the keyed lookup (closure given to an Option combinator, if-let arm, or code after `?`)"""
+    from .core import strip, walk
     prog = v.prog
     ctx.cur = v
-    from .core import OPTION_PAYLOAD_COMBINATORS
     for name in ("change_priority", "change_priority_by", "remove"):
         for owner in ("store::Store", PQ, DPQ):
             f = prog.fn("%s::%s" % (owner, name))
             ctx.anchor("%s::%s" % (owner, name), f is not None)
             bad = []
+            # blocks dominated by the Some edge of a switch on the lookup's Option result
+            some_dom = set()
+            for bi in sorted(f.cfg.reach):
+                t = f.term(bi)
+                if t["k"] != "switch":
+                    continue
+                d = strip(v.vp.operand(f, t["discr"]))
+                if d[0] == "discr" and any(x[0] == "call" and x[1].split("::")[-1] in (
+                        "get_full_mut", "swap_remove_full", "change_priority", "change_priority_by", "remove", "branch", "get_full_mut2", "get_mut") for x in walk(d)):
+                    for val, tb in t["targets"]:
+                        if val == 1 and len(f.cfg.pred[tb]) == 1:
+                            some_dom |= {b for b in f.cfg.reach if f.cfg.dominates(tb, b)}
+                    if all(val == 0 for val, _ in t["targets"]) and len(f.cfg.pred[t["otherwise"]]) == 1:
+                        some_dom |= {b for b in f.cfg.reach if f.cfg.dominates(t["otherwise"], b)}
             for ev in v.fx.events(f):
-                if ev["kind"] == "tw" or (ev["kind"] == "mw" and ev.get("mclass") in ("grow", "clear", "retain", "reorder")):
-                    bad.append("%s line %d" % (ev.get("how") or ev.get("name"), ev["span"]["line"]))
+                eff = ev["kind"] == "tw" or (ev["kind"] == "mw" and ev.get("mclass") in ("grow", "clear", "retain", "reorder"))
                 if ev["kind"] == "call" and ev["callee"].split("::")[-1] in ("up_heapify", "heapify", "heap_build", "bubble_up", "push"):
-                    bad.append("call %s line %d" % (ev["callee"], ev["span"]["line"]))
-            # the root body may only look up and hand the result to Option combinators
+                    eff = True
+                if eff and ev["bb"] not in some_dom:
+                    bad.append("%s line %d" % (ev.get("how") or ev.get("name") or ev.get("callee"), ev["span"]["line"]))
             ctx.ob("R-ABSENT", "%s::%s" % (owner.split("::")[-1], name), not bad, f.loc(),
-                   "all writes and re-sifts live in the continuation of the successful lookup" if not bad else
-                   "writes outside the found-branch: %s" % "; ".join(bad))
+                   "every write and re-sift is control-dependent on the successful lookup" if not bad else
+                   "effects that also run when the item is absent: %s" % "; ".join(bad))
 
 
 def c04(ctx, v):
